@@ -266,7 +266,7 @@ def _run_workers(prop, indexed, nworkers, budget_s, watchdog_s, tmpdir):
                     got.add(o['i'])
                     results[o['i']] = o
                     begun = None
-            errtxt = open(err.name).read()[-3000:]
+            errtxt = open(err.name).read()[-20000:]
             if setup_state is None or setup_state.get('setup') != 'ok':
                 reason = (setup_state or {}).get('reason') or f'worker died during setup (rc={p.returncode}): {errtxt}'
                 for i, _ in chunk:
@@ -325,7 +325,8 @@ def run_property(prop, tier, replay=None):
 
     for i, rc, errtxt in crashes:
         sig = -rc if rc and rc < 0 else rc
-        results[i] = violated(f'crash:rc={sig}', dict(returncode=rc, stderr=errtxt[-1500:]))
+        head = errtxt[errtxt.find('Fatal Python error'):][:1200] if 'Fatal Python error' in errtxt else errtxt[-1200:]
+        results[i] = violated(f'crash:rc={sig}', dict(returncode=rc, stderr=head))
 
     agg = dict(held=0, violated=0, inconclusive=0, skipped_budget=0, known=0)
     counters, checks, metrics = {}, 0, {}
@@ -350,7 +351,8 @@ def run_property(prop, tier, replay=None):
             if new:
                 agg['violated'] += 1
                 unlisted += 1
-                if len(viol_lines) < 5:
+                seen_mech = {m for _, m, _ in viol_lines}
+                if len(viol_lines) < 3 or (new[0]['mechanism'] not in seen_mech and len(viol_lines) < 12):
                     path = os.path.join(VERIF_DIR, 'replays', prop, digest(case) + '.json')
                     os.makedirs(os.path.dirname(path), exist_ok=True)
                     with open(path, 'w') as f:
